@@ -97,6 +97,11 @@ theorem srcCounts_eq (rows : List Row) :
   simp only [srcCounts, TradeoffSrc.countN, TradeoffSrc.countPos, TradeoffSrc.countNeg, Prod.mk.injEq, true_and]
   rw [hq]; ring
 
+theorem rawPoints_eq (flip : Bool) (xm ym : ThresholdGen.Metric) (rows : List Row) :
+    rawPoints flip xm ym rows =
+      (sweepSteps rows).flatMap (stepPoints (operations flip) xm ym (nNeg rows) (nPos rows)) := by
+  simp only [rawPoints, srcCounts_eq]
+
 /-- **bridge (the "Degenerate labels" guard)**: with the lifted connective and the lifted counts the guard fires iff the
     group has no positive or no negative row -/
 theorem src_degenerate (rows : List Row) : degenerate rows = true ↔ (nPos rows = 0 ∨ nNeg rows = 0) := by
